@@ -5,7 +5,7 @@ from pathlib import Path
 from typing import Union
 
 from pydantic import BaseModel, Extra, ValidationError, root_validator
-from pydantic_yaml import parse_yaml_file_as, parse_yaml_raw_as, to_yaml_str
+from pydantic_yaml import to_yaml_str
 from ruamel.yaml import YAML
 
 from .encoder import DynEncoderModelMetaclass
@@ -143,7 +143,9 @@ class BaseModelPlus(ParserMixin, BaseModel, metaclass=DynEncoderModelMetaclass):
         try:
             return super().parse_raw(dat, **kwargs)
         except ValidationError:
-            return parse_yaml_raw_as(cls, dat)
+            # like for JSON: the document is an object of this class (parse_yaml_raw_as
+            # would treat the class like a field type and run its custom parser)
+            return cls.parse_obj(YAML(typ="safe", pure=True).load(dat))
 
     def __bytes__(self) -> bytes:
         """Serialize to JSON and return UTF-8 encoded bytes to be written in a file."""
